@@ -24,7 +24,8 @@ Definition infix_like (e : ast) : option (str * ast * ast * bool) :=
 Definition is_infix_like (e : ast) : bool := match infix_like e with Some _ => true | None => false end.
 Definition is_ternary (e : ast) : bool := match e with ATernary _ _ _ => true | _ => false end.
 
-(* some operator x on the right spine of e has l_bp >= r_bp(x) *)
+(* some operator x on the right spine of e has l_bp >= r_bp(x) - the conservative criterion of the printer before the fix
+   "exact parentheses" (kept for Lemmas/PrattFull.v, which proves the round trip for that parenthesisation) *)
 Fixpoint rspine_blocks (l_bp : Z) (e : ast) : bool :=
   match e with
   | ABinary x _ r => (snd (binding_power tbl x) <=? l_bp)%Z || rspine_blocks l_bp r
@@ -41,6 +42,28 @@ Fixpoint lspine_blocks (r_bp : Z) (e : ast) : bool :=
   | _ => false
   end.
 
+(* infix_render (parser.rs): for an infix-like node, the weakest binding powers still EXPOSED on its two flanks - the smallest
+   l_bp on its left spine and the smallest r_bp on its right spine, a spine being followed only through operands that are
+   written without parentheses; None for every other node. An operand is parenthesised exactly when it is a conditional or
+   some exposed operator on its flank facing the operator would not bind first. *)
+Definition left_paren (l_bp : Z) (lhs : ast) (m : option (Z * Z)) : bool :=
+  is_ternary lhs || match m with Some (_, r_min) => (r_min <=? l_bp)%Z | None => false end.
+Definition right_paren (r_bp : Z) (rhs : ast) (m : option (Z * Z)) : bool :=
+  is_ternary rhs || match m with Some (l_min, _) => (l_min <=? r_bp)%Z | None => false end.
+
+Fixpoint mins (e : ast) : option (Z * Z) :=
+  let node (x : str) (l r : ast) : option (Z * Z) :=
+    let '(l_bp, r_bp) := binding_power tbl x in
+    let ml := mins l in
+    let mr := mins r in
+    Some (match ml with Some (m, _) => if left_paren l_bp l ml then l_bp else Z.min l_bp m | None => l_bp end,
+          match mr with Some (_, m) => if right_paren r_bp r mr then r_bp else Z.min r_bp m | None => r_bp end) in
+  match e with
+  | ABinary x l r => node x l r
+  | AUnary o (ABinary x l r) => if str_eqb o s_not then node x l r else None
+  | _ => None
+  end.
+
 Definition paren (need : bool) (s : str) : str := if need then c_lparen :: s ++ [c_rparen] else s.
 Definition sp : str := [c_space].
 
@@ -53,8 +76,8 @@ Definition postfix_needs_paren (lhs : ast) : bool :=
 Fixpoint expr (e : ast) : str :=
   let binary (shown op : str) (lhs rhs : ast) : str :=
     let '(l_bp, r_bp) := binding_power tbl op in
-    paren (is_ternary lhs || rspine_blocks l_bp lhs) (expr lhs) ++ sp ++ shown ++ sp ++
-    paren (is_ternary rhs || lspine_blocks r_bp rhs) (expr rhs) in
+    paren (left_paren l_bp lhs (mins lhs)) (expr lhs) ++ sp ++ shown ++ sp ++
+    paren (right_paren r_bp rhs (mins rhs)) (expr rhs) in
   match e with
   | ALit l => lit_expr l
   | ARef n => n
